@@ -780,7 +780,15 @@ def rule_domain(ctx, mod, fn, D, CD):
     """G5: computation domain = survey domain + buffer."""
     where = ctx.where(mod, fn)
     wl = find('_w_ = _lf_ * wavelength(_sk_[1:])', fn)
-    ctx.anchor(len(wl) == 1, 'wavelength of the buffer properties')
+    ctx.check('C16.G5.domain', 'buffer length = lambda_factor * wavelength '
+              'of the buffer properties', len(wl) == 1,
+              'the length the buffer is derived from is not lambda_factor '
+              'times the wavelength of the second / third property (e.g. '
+              'capped or scaled before): the mesh need not cover the '
+              'requested buffer min(lambda_factor * wavelength, max_buffer)',
+              where)
+    if len(wl) != 1:
+        return
     W = wl[0][1]['_w_']
     lfp = find("_lf_ = kwargs.pop('lambda_factor', 1.0)", fn,
                {'_lf_': wl[0][1]['_lf_']})
@@ -969,6 +977,32 @@ def rule_routing(ctx, mod):
                   'order', ok, 'TensorMesh is not built from (hx, hy, hz) '
                   'and (x0, y0, z0) of the x, y and z searches',
                   ctx.where(mod, cm))
+    # options given per direction as a dictionary are routed by their KEYS
+    routed = find(f"_put_in_dicts([{dicts['x'][0]}, {dicts['y'][0]}, "
+                  f"{dicts['z'][0]}], (_v_['x'], _v_['y'], _v_['z']), _n_)",
+                  cm) if len(dicts) == 3 else []
+    okd = len(routed) >= 2 and all(any(
+        g.startswith('isinstance(') and g.endswith(',dict)')
+        for g in au.guard_texts(n_, cm)) for n_, _b in routed)
+    pos = [c for c in ast.walk(cm) if isinstance(c, ast.Call) and isinstance(
+        c.func, ast.Attribute) and c.func.attr in ('values', 'items') and
+        not c.args]
+    ctx.check('C16.G7.routing', "per-direction dictionaries are read by "
+              "their keys 'x', 'y', 'z'", okd and not pos,
+              "a dictionary {'x': .., 'y': .., 'z': ..} of domain / vector / "
+              'distance / stretching / ... is not split as value[\'x\'], '
+              "value['y'], value['z'] (it is read in insertion order): keys "
+              'given in another order send the options of one direction to '
+              'another', ctx.where(mod, pos[0] if pos else cm))
+    hp = [n for n in ast.walk(cm) if isinstance(n, ast.FunctionDef) and
+          n is not cm]
+    okh = len(hp) == 1 and has(
+        'for _i_, _d_ in enumerate(_ds_):\n'
+        '    if _v_[_i_] is not None:\n'
+        '        _d_[_n_] = _v_[_i_]', hp[0])
+    ctx.check('C16.G7.routing', 'positional hand-over to the x, y, z '
+              'parameter sets', okh, 'the helper does not give the i-th '
+              'value to the i-th parameter set', ctx.where(mod, cm))
     # properties per direction
     table = {3: (['0', '2', '2'], ['0', '2', '2'], ['0', '1', '2']),
              4: (['0', '1', '1'], ['0', '1', '1'], ['0', '2', '3']),
@@ -1027,6 +1061,19 @@ def rule_numbers(ctx, mod):
               'the nodes of a provided vector are not taken over as the '
               'centre part (widths = diff(vector), edges = its ends)',
               ctx.where(mod, ow))
+    drop = [n for n in ast.walk(ow) if isinstance(n, ast.If) and any(
+        same(f'{V} = None', st) is not None for st in n.body)]
+    from ..core.canon import ct as _ct
+    okdrop = len(drop) == 1 and ast.unparse(drop[0].test).replace(
+        ' ', '') in (_ct(f'len({V}) < 3'), _ct(f'len({V}) <= 2'),
+                     _ct(f'{V}.size < 3'), _ct(f'{V}.size <= 2'))
+    ctx.check('C16.G8.centre', 'a vector is dropped only with fewer than '
+              'three nodes in the domain', okdrop,
+              f'the provided vector is set to None under '
+              f'`{ast.unparse(drop[0].test) if drop else "?"}`: a vector '
+              'with two cells in the domain is silently dropped and its '
+              'nodes are not nodes of the mesh', ctx.where(
+                  mod, drop[0] if drop else ow))
     cut = has(f'{V} = {V}[_a_[-1]:]', ow) and has(f'{V} = {V}[:_b_[1]]', ow)
     ctx.check('C16.G8.centre', 'vector cut to the domain keeps the nodes '
               'inside', cut, 'the provided vector is not cut at the last '
